@@ -10,15 +10,15 @@ package main
 // tables/c18_allowed.json with the reason it is harmless, or is a finding.
 
 import (
-	"go/ast"
-	"sync"
 	"encoding/json"
 	"fmt"
+	"go/ast"
 	"go/types"
 	"os"
 	"path/filepath"
 	"sort"
 	"strings"
+	"sync"
 	"time"
 
 	"golang.org/x/tools/go/ssa"
